@@ -415,3 +415,67 @@ pub fn shape_mismatch(ctx: &mut Ctx, rng: &mut ChaCha8Rng, salt: u32) {
     let _ = build;
     let _: Option<VQ> = None;
 }
+
+/// Repeated (commitment, point) pairs through the real `multi_open` / `multi_prepare`: every
+/// query of a base case repeated (identical evaluation / different evaluation) right after itself,
+/// at the end of the list and at the front; the base shapes include a commitment whose point
+/// indices are not increasing (`d@x, d@y, c@y, c@x`), a chopped commitment (its reference is
+/// rebuilt for the repeated query: equality is by the piece references, not by the vector), and
+/// two references to equal commitments at the same point (NOT a repetition).
+pub fn dup_cases(ctx: &mut Ctx, rng: &mut ChaCha8Rng, salt0: u32) {
+    let mut bases = vec![];
+    // d at x,y; c at y,x; e at x
+    bases.push(plain_base(rng, "dup-unsorted", 3, &[3, 3, 1], 2, vec![(0, 0), (0, 1), (1, 1), (1, 0), (2, 0)], |_| 0, 0));
+    // three points, descending
+    bases.push(plain_base(rng, "dup-desc3", 3, &[7, 7], 3, vec![(0, 0), (0, 1), (0, 2), (1, 2), (1, 1), (1, 0)], |_| 0, 1));
+    // a chopped commitment among plain ones
+    {
+        let k = 3u32;
+        let n = 1usize << k;
+        let polys: Vec<Vec<Fq>> = (0..4).map(|_| poly_of(rng, n, 0)).collect();
+        let items = vec![Item::Plain { poly: 2, points: vec![0, 1] }, Item::Plain { poly: 3, points: vec![1] }, Item::Chopped { pieces: vec![0, 1], nparam: 8, point: 0 }];
+        bases.push(Base { k, s: Fq::random(&mut *rng), name: "dup-chopped".into(), polys, pts: points_of(rng, 2, 0, k), items, order: vec![(0, 0), (0, 1), (1, 1), (2, 0)] });
+    }
+    // identical polynomials behind two references at the same point: not a repetition
+    {
+        let mut b = plain_base(rng, "dup-ident-refs", 3, &[1, 1], 1, vec![(0, 0), (1, 0)], |_| 0, 0);
+        b.polys[1] = b.polys[0].clone();
+        bases.push(b);
+    }
+    let mut salt = salt0;
+    for b in bases {
+        salt += 1;
+        // prover side: every query repeated at the end / right after itself
+        for j in 0..b.order.len() {
+            for at in [j + 1, b.order.len()] {
+                let mut bd = b.clone();
+                bd.name = format!("{}-rep", b.name);
+                bd.order.insert(at, b.order[j]);
+                salt += 1;
+                let _ = prove_base(ctx, &bd, salt, 0, rng);
+            }
+        }
+        // verifier side against an honest proof of the duplicate-free list
+        if let Some(p) = prove_base(ctx, &b, salt, 1, rng) {
+            let vq0 = p.built.vq.clone();
+            verify_case(ctx, &b, &p, &vq0, &Tamper::None, "honest", true);
+            for j in 0..vq0.len() {
+                for at in [j + 1, vq0.len(), 0] {
+                    let mut vq = vq0.clone();
+                    vq.insert(at, vq0[j].clone());
+                    verify_case(ctx, &b, &p, &vq, &Tamper::None, "dup-same-eval", false);
+                    let mut vq = vq0.clone();
+                    let mut q = vq0[j].clone();
+                    q.ev += Fq::ONE;
+                    vq.insert(at, q);
+                    verify_case(ctx, &b, &p, &vq, &Tamper::None, "dup-diff-eval", false);
+                    // the wrong evaluation first, the right one repeated afterwards
+                    let mut vq = vq0.clone();
+                    vq[j].ev += Fq::ONE;
+                    vq.insert(at.max(j + 1), vq0[j].clone());
+                    verify_case(ctx, &b, &p, &vq, &Tamper::None, "dup-wrong-then-right", false);
+                }
+            }
+        }
+    }
+}
